@@ -1,6 +1,6 @@
-import GS.Model.Bf
+import GS.Model.BfBase
 /-!
-# GS.Model.BfUnique — mirror of `uniqueRec` (`bf.Unique` with more than 4 names, /repo/bf/bf.go)
+# GS.Model.BfUnique — mirror of `uniqueRec` (the clauses of an exactly-one group where it must hold, /repo/bf/bf.go)
 
 Core-only. `uniqueRec(vars...)`:
 
@@ -16,17 +16,17 @@ exact integer version (`⌊√n + ½⌋`, `⌈√n⌉`), to be compared with Go'
 harness (op `uniquedims`).
 
 **Dummy keys.** A Go `variable{name, dummy}` is a `Key = (number, dummy)`. The dummy variable
-"line `i` of the group `g`" is the key `(nm false i g, true)`, "column `j` of the group `g`" is
-`(nm true j g, true)`, where `nm : Bool → Nat → List Key → Nat` is a parameter of `uniqueRecN`
+"line `i` of the group `g`" is the key `(2 * nm false i g + 1, true)`, "column `j` of the group `g`" is
+`(2 * nm true j g + 1, true)`, where `nm : Bool → Nat → List Key → Nat` is a parameter of `uniqueRecN`
 that must be injective. The concrete choice `natName` is
 `natName t i g = pair (t ? 1 : 0) (pair i (codeList (g.map keyCode)))` with
 `pair a b = (a+b)² + b` (injective), `keyCode (n, d) = 2n + (d ? 1 : 0)`,
 `codeList [] = 0`, `codeList (x :: xs) = pair x (codeList xs) + 1`.
 (Go's own encoding — joining the names with `"-"` — is *not* injective when names contain `-`:
 see the note in `GS/Props/C11_Unique.lean`.)
-NB. these keys `(_, true)` live in the same `Key` space as the keys `(val, true)` that
-`GS.Bf.dummy` uses for Go's `dummy-<val>` variables; in Go the three families of names
-(`line-…`, `col-…`, `dummy-…`) are disjoint strings.
+These keys have an **odd** number; the keys `(2 * val, true)` that `GS.Bf.dummy` uses for Go's
+`dummy-<val>` variables have an even one: as in Go, where the three families of names (`line-…`,
+`col-…`, `dummy-…`) are disjoint strings, a dummy of `uniqueRec` is never a dummy of `cnfRec`.
 
 **What the model does not mirror.** Go panics when `nbCols = 0` (integer division by zero) or
 when `p / nbCols ≥ nbLines` (index out of range); the model instead puts such a variable in no
@@ -35,9 +35,6 @@ The recursion is fuel-bounded (`uniqueRecF`); fuel `len(vars)` suffices when `Di
 -/
 namespace GS.BfUnique
 open GS.Bf
-
-/-- the Go value `variable{name, dummy}` as a formula -/
-def keyVar (k : Key) : F := .var k.1 k.2
 
 /-- `xs[q]` for the positions `q` with `f (p + q)`, in order (`p` = index of the head):
     what the loop `for i, v := range vars { linesF[i/nbCols] = append(linesF[i/nbCols], v) … }`
@@ -79,7 +76,7 @@ def natName (t : Bool) (i : Nat) (g : List Key) : Nat :=
 
 /-- `lines[i]` (`t = false`) / `cols[i]` (`t = true`) for the group `vars` -/
 def dummyKey (nm : Bool → Nat → List Key → Nat) (t : Bool) (vars : List Key) (i : Nat) : Key :=
-  (nm t i vars, true)
+  (2 * nm t i vars + 1, true)
 
 /-- the slice `lines` (resp. `cols`): `k` dummy variables -/
 def dummyKeys (nm : Bool → Nat → List Key → Nat) (t : Bool) (vars : List Key) (k : Nat) : List Key :=
@@ -120,7 +117,7 @@ def uniqueRecN (dims : Nat → Nat × Nat) (nm : Bool → Nat → List Key → N
 /-- `uniqueRec(vars...)`, dummy variables named by `natName` -/
 def uniqueRec (dims : Nat → Nat × Nat) (vars : List Key) : F := uniqueRecN dims natName vars
 
-/-- `Unique(names...)`: `uniqueRec` on the problem variables -/
+/-- `uniqueRec` on the problem variables named `ns`: what `Unique(ns...).nnf()` normalises -/
 def unique (dims : Nat → Nat × Nat) (ns : List Nat) : F := uniqueRec dims (ns.map (fun n => (n, false)))
 
 end GS.BfUnique
